@@ -46,6 +46,9 @@ TRUSTED = [
     "get_id_pack, get_methods, class_factory, bool(), raise, *-unpacking of a non-plain value, on_disconnect) is the "
     "environment's move: universally quantified in the theorems (any result, any exception, any number of callbacks to "
     "the peer, stateful), observed on the real run in the correspondence",
+    "the interpreter is CPython 3.12 (the one /venv/bin/python runs): every plain value is hashable there, slices included, "
+    "so a dict lookup with any decoded value (handler id, LOCAL_REF identifier, sequence number) is KeyError-or-hit; on 3.11 "
+    "a slice inside such a value gives TypeError instead (the model would have to split that case)",
     "CPython facts the dispatch code relies on, transcribed by hand: tuple/str/bytes/frozenset unpacking and indexing "
     "with their TypeError/ValueError/IndexError split, `==`/hash of numbers across bool/int/float/complex in dict "
     "lookups (handler id, label, message type, id packs, sequence numbers), truth values, PEP 479 inside the "
@@ -266,6 +269,12 @@ def correspondence(ctx):
             c.samples.append(dict(session=i, config=cfg, sent=desc[-2:], events=want.split(" | ")[0].split(" ; ")[-12:],
                                   table=want.split(" | ")[1][:300]))
     c.count("keys()-run-on-a-held-object(must be 0)", keys_calls)
+    try:
+        from rpyc.core import vinegar as _v
+        c.extra["global_cache_sizes_after_run"] = dict(generic_exceptions=len(_v._generic_exceptions_cache),
+                                                       exception_classes=len(_v._exception_classes_cache))
+    except Exception:  # noqa
+        pass
     c.extra["sessions"] = len(lines)
     c.extra["messages"] = nmsg
     c.extra["unpoliced_by_design"] = [
@@ -564,6 +573,77 @@ def oracle_search(ctx, corr, broken):
                 return found
         i += 1
     return None
+
+
+# ---------------------------------------------------------------------------------------------- standing probes
+def _deep_bytes(depth, seq, kind):
+    """a PING request whose argument is nested `depth` levels deep, assembled byte by byte (no recursion here):
+    kind 'tuple': LABEL_TUPLE packages inside one another (recursion in `_unbox`); kind 'value': one LABEL_VALUE whose
+    value is a deeply nested tuple (recursion in brine)"""
+    from rpyc.core import brine
+    t1, t2, t3 = brine.TAG_TUP1, brine.TAG_TUP2, brine.TAG_TUP3
+    if kind == "tuple":
+        inner = brine.dump((1, 5))
+        for _ in range(depth):
+            inner = t2 + brine.dump(2) + t1 + inner
+        args = t2 + brine.dump(2) + t1 + inner                      # (2, (<deep package>,))
+    else:
+        v = brine.dump(5)
+        for _ in range(depth):
+            v = t1 + v
+        args = t2 + brine.dump(1) + t1 + v                          # (1, (<deep value>,))
+    return t3 + brine.dump(1) + brine.dump(seq) + t2 + brine.dump(1) + args
+
+
+def known_probes(ctx):
+    """statement-level probes run on EVERY check (real code only): packages far deeper / larger than anything sane must
+    end in an exception reply or in that one connection closing - never in a hang, a dead process, or silence"""
+    import signal
+    out = []
+    problems = []
+    old = signal.signal(signal.SIGALRM, _alarm)
+    try:
+        for kind in ("tuple", "value"):
+            for depth in (50, 400, 800, 1200, 3000, 20000):
+                signal.alarm(WATCHDOG_S)
+                try:
+                    with hw.Session(config={}, second=False) as s:
+                        rt.REC = None                 # the recorder's own frames would only eat stack
+                        got = s.burst([("g", _deep_bytes(depth, 77, kind))])
+                        answered = [m for m in got if type(m) is tuple and len(m) == 3 and m[0] in (2, 3) and m[1] == 77]
+                        if not answered and not (s.ended or s.conn.closed):
+                            problems.append("%s nesting %d: no answer and the connection stays open" % (kind, depth))
+                        elif answered and not (s.ended or s.conn.closed):
+                            again = s.burst([("v", (1, 78, (1, (1, ("still there",)))))])
+                            if not any(type(m) is tuple and m[:2] == (2, 78) for m in again):
+                                problems.append("%s nesting %d: answered, but the connection no longer serves" % (kind, depth))
+                except SessionHang:
+                    problems.append("%s nesting %d: the serving thread hangs" % (kind, depth))
+                except rt.Unobservable:
+                    pass
+                finally:
+                    signal.alarm(0)
+        signal.alarm(WATCHDOG_S)
+        try:
+            with hw.Session(config={}, second=False) as s:
+                rt.REC = None
+                big = bytes(3 * 1024 * 1024)
+                got = s.burst([("v", (1, 79, (1, (1, (big,)))))])
+                if not any(type(m) is tuple and m[:2] == (2, 79) and m[2] == (1, big) for m in got):
+                    problems.append("a 3 MiB argument was not echoed by HANDLE_PING")
+        except SessionHang:
+            problems.append("a 3 MiB argument hangs the serving thread")
+        finally:
+            signal.alarm(0)
+    finally:
+        signal.alarm(0)
+        signal.signal(signal.SIGALRM, old)
+        rt.REC = None
+    out.append(("C07:deep-or-large-package-not-contained", bool(problems),
+                "deep / large packages: " + ("; ".join(problems) if problems else "all answered with an exception reply, echoed, or "
+                                             "that one connection closed")))
+    ctx.log("probes: deep/large packages %s" % ("FAILED: " + "; ".join(problems) if problems else "contained"))
+    return out
 
 
 def replay(case):
